@@ -2065,6 +2065,7 @@ func (m *Machine) processQueue() Result {
 		lenQ := len(m.queue)
 		if lenQ < 1 {
 			m.Log("ERROR: missing queue item")
+			m.queueMx.Unlock()
 			return Canceled
 		}
 		mut := m.queue[0]
